@@ -67,7 +67,14 @@ pub fn run(prop: &str, tier: &str) -> i32 {
             let mx = if run.thorough() { 4 } else { 3 };
             run_e1(&mut run, &[1, 2, 3], &[true], 999, move |s| c06_08_16::eval_c06_with(s, mx));
         }
-        "C08" => {
+        "C08" | "C08DBG" => {
+            if prop == "C08DBG" {
+                // the same exploration in a build with debug assertions on (the library's debug_assert!s guard its
+                // 1D/2D normalisations and the integer grid of the unused axes)
+                run.property = "C08".to_string();
+                run.known = load_known_findings("C08");
+            }
+            run.assumptions.push(format!("this run: build kind = {} (the check runs a debug-assertions build and a release build)", c05::build_kind()));
             run.rule = format!("1D/2D states of: {}; transitions: every unused coordinate (generators, anchor, width) rewritten to each value of a 6-value menu, all pairs of such deviations with extreme values (n <= 3); 1D closed form; 2D vs 3D slab", E1_RULE);
             run_e1(&mut run, &[1, 2], &[false, true], 999, c06_08_16::eval_c08);
         }
